@@ -176,8 +176,48 @@ def c_advance_by(I, callee, args, st, n, fidx):
     else:
         I.emit(st, kind, n, cursor=cid, count=cnt, chars=None, via="advance_by", pos=c.pos, facts=None,
                bfacts=dict(st.bfacts))
-        jump(st, c)
+        tgt = _advance_target(cnt, strm, c.pos)
+        if tgt is not None:
+            # `advance_by(dist(a, b) + k)` from the position k characters before a: the cursor lands exactly on
+            # the position b that a look-ahead cursor of the same stream reached (same label, not a fresh one)
+            old = c.pos
+            c.pos = tgt
+            c.exact = False
+            if cid == "main":
+                mc = dict(st.fields.get("_minc", {}))
+                mc[tgt] = max(mc.get(tgt, 0), mc.get(old, 0))
+                st.fields["_minc"] = mc
+        else:
+            jump(st, c)
     return val(UNIT, st)
+
+
+def _advance_target(cnt, strm, pos):
+    """b when cnt == char_offset(strm, b) - char_offset(strm, a) + k with a == pos + k (a, pos in one exact block)."""
+    k = 0
+    v = cnt
+    for _ in range(6):
+        if isinstance(v, Term) and (v.op.startswith("cast:") or v.op == "into") and v.args:
+            v = v.args[0]
+        elif isinstance(v, Term) and v.op == "bin:Add" and len(v.args) == 2 and isinstance(v.args[1], Const) and v.args[1].t == "int":
+            k += v.args[1].v
+            v = v.args[0]
+        elif isinstance(v, Term) and v.op == "bin:Add" and len(v.args) == 2 and isinstance(v.args[0], Const) and v.args[0].t == "int":
+            k += v.args[0].v
+            v = v.args[1]
+        else:
+            break
+    if not (isinstance(v, Term) and v.op == "bin:Sub" and len(v.args) == 2):
+        return None
+    hi, lo = v.args
+    if not all(isinstance(x, Term) and x.op == "char_offset" and len(x.args) == 2 for x in (hi, lo)):
+        return None
+    if hi.args[0].v != strm or lo.args[0].v != strm:
+        return None
+    a, b = lo.args[1].v, hi.args[1].v
+    if k < 0 or a != pos + k or a // 100000 != pos // 100000 or b < a:
+        return None
+    return b
 
 
 @prim("cursor::Cursor::as_str")
@@ -351,7 +391,9 @@ def v_pop(I, callee, args, st, n, fidx):
             outs.append(Out("val", NONE, s2))
         st.base -= 1
         st.below_pops += 1
-        I.emit(st, "pop", n, mode=m, known=False, depth=st.base + len(st.stack), certain=bool(certain))
+        ident = st.vfacts.get(m.key())
+        I.emit(st, "pop", n, mode=m, known=False, depth=st.base + len(st.stack), certain=bool(certain),
+               identified=sorted(ident[0]) if ident and ident[0] else None)
         outs.insert(0, Out("val", some(m), st))
         return outs
     if isinstance(a, LRef):
@@ -871,8 +913,9 @@ def phf_get(I, callee, args, st, n, fidx):
     v = Term("phf_val", (Const("str", name), key), "token_type::TokenType")
     s2 = st.clone()
     st.vfacts[I.vkey(v)] = (frozenset(x.split("::")[-1] for _, x in vals), frozenset())
-    I.emit(st, "phf_lookup", n, map=name, key=key, hit=True)
-    I.emit(s2, "phf_lookup", n, map=name, key=key, hit=False)
+    cur = {c.id: c.pos for c in st.cursors.values()}
+    I.emit(st, "phf_lookup", n, map=name, key=key, hit=True, cursors=cur)
+    I.emit(s2, "phf_lookup", n, map=name, key=key, hit=False, cursors=cur)
     return [Out("val", some(v), st), Out("val", NONE, s2)]
 
 
